@@ -17,7 +17,9 @@ import (
 
 // Tags is the tag pool. The byte order (used by registries for paging) differs
 // from the index order on purpose.
-var Tags = []string{"v1", "latest", "v1.0", "Z9-x", "a_b"}
+// Mixed case on purpose: byte order, case-insensitive order and push order disagree
+// (byte: Beta RC1 alpha latest v1; case-insensitive: alpha Beta latest RC1 v1).
+var Tags = []string{"v1", "latest", "Beta", "RC1", "alpha"}
 
 // PoolMan is one manifest of the pool.
 type PoolMan struct {
